@@ -19,8 +19,8 @@ CONSTANTS CfgIds,      \* configurations explored by the model (keys of Doc.cfgs
           Kinds,       \* identifier categories explored by the model
           Alphabet,    \* code points the model builds inputs from
           MaxLen,      \* inputs of length 1..MaxLen
-          Reverify,    \* FALSE: the code as it is (a handler's result is returned without re-verification)
-                       \* TRUE : variant that re-runs the three dry-run checks on a handler's result
+          Reverify,    \* FALSE: the code as it is (a failure handler's result is returned without re-verification)
+                       \* TRUE : variant that ends with the three dry-run checks once more, without handlers
           WithReask    \* TRUE: after the first answer the same question is asked again (cache hit or recompute)
 
 Doc  == JsonDeserialize(IOEnv.STROP_CFGS)
@@ -210,8 +210,6 @@ HandlerOut(t) == LET n == LeadUnderscores(t)
                     ELSE <<95>> \o SubSeq(t, n + 1, Len(t))
 HasStropHandler(c) == Cfgs[c].lang \in {"c", "cpp"}
 HasEncHandler(c)   == Cfgs[c].lang = "cpp"
-(* does a handler's result survive?  (only the Reverify variant looks) *)
-HandlerResultOk(c, k, t) == ~Reverify \/ ~(FailPat(c, k, t) \/ FailKw(c, k, t) \/ FailEnc(c, k, t))
 
 (* The whole pipeline as one operator: [err, out, hnd (a handler produced the token), steps]                *)
 Step(s, t, x) == [s |-> s, t |-> t, x |-> x]
@@ -220,7 +218,7 @@ Recheck(c, k, st, name, hname, fails, hashandler) ==
     IF st.err THEN st
     ELSE IF ~fails THEN [st EXCEPT !.steps = Append(@, Step(name, st.out, FALSE))]
     ELSE LET s1 == Append(st.steps, Step(name, st.out, TRUE))
-         IN IF hashandler /\ HandlerApplies(st.out) /\ HandlerResultOk(c, k, HandlerOut(st.out))
+         IN IF hashandler /\ HandlerApplies(st.out)
             THEN [err |-> FALSE, out |-> HandlerOut(st.out), hnd |-> TRUE, steps |-> Append(s1, Step(hname, HandlerOut(st.out), FALSE))]
             ELSE [err |-> TRUE, out |-> <<>>, hnd |-> st.hnd,
                   steps |-> IF hashandler THEN Append(s1, Step(hname, <<>>, TRUE)) ELSE s1]
@@ -235,7 +233,11 @@ Pipe(c, k, s) ==
         s1 == Recheck(c, k, s0, "rpat", "hpat", FailPat(c, k, s0.out), HasStropHandler(c))
         s2 == Recheck(c, k, s1, "rkw", "hkw", ~s1.err /\ FailKw(c, k, s1.out), HasStropHandler(c))
         s3 == Recheck(c, k, s2, "renc", "henc", ~s2.err /\ FailEnc(c, k, s2.out), HasEncHandler(c))
-    IN s3
+        \* Reverify variant: the same three dry-run checks again on the final token, no handlers
+        v1 == Recheck(c, k, s3, "rpat", "", ~s3.err /\ FailPat(c, k, s3.out), FALSE)
+        v2 == Recheck(c, k, v1, "rkw", "", ~v1.err /\ FailKw(c, k, v1.out), FALSE)
+        v3 == Recheck(c, k, v2, "renc", "", ~v2.err /\ FailEnc(c, k, v2.out), FALSE)
+    IN IF Reverify THEN v3 ELSE s3
 
 (* ------------------------------------------------------------------------------------------------------ *)
 (* I-layer as a state machine: one action per stage of the code                                             *)
@@ -272,7 +274,7 @@ RecheckStage(here, name, fails, hashandler, handlerStage, nextStage) ==
        ELSE /\ stage' = "ans" /\ tok' = <<>> /\ err' = TRUE /\ steps' = Append(steps, Step(name, tok, TRUE)) /\ UNCHANGED hnd /\ Keep
 HandlerStage(here, name, nextStage) ==
     /\ stage = here
-    /\ IF HandlerApplies(tok) /\ HandlerResultOk(cfg, kind, HandlerOut(tok))
+    /\ IF HandlerApplies(tok)
        THEN /\ stage' = nextStage /\ tok' = HandlerOut(tok) /\ hnd' = TRUE
             /\ steps' = Append(steps, Step(name, HandlerOut(tok), FALSE)) /\ UNCHANGED err /\ Keep
        ELSE Fail(name)
@@ -281,8 +283,13 @@ RecheckPat == RecheckStage("rpat", "rpat", FailPat(cfg, kind, tok), HasStropHand
 HandlerPat == HandlerStage("hpat", "hpat", "rkw")
 RecheckKw  == RecheckStage("rkw", "rkw", FailKw(cfg, kind, tok), HasStropHandler(cfg), "hkw", "renc")
 HandlerKw  == HandlerStage("hkw", "hkw", "renc")
-RecheckEnc == RecheckStage("renc", "renc", FailEnc(cfg, kind, tok), HasEncHandler(cfg), "henc", "ans")
-HandlerEnc == HandlerStage("henc", "henc", "ans")
+AfterChecks == IF Reverify THEN "vpat" ELSE "ans"
+RecheckEnc == RecheckStage("renc", "renc", FailEnc(cfg, kind, tok), HasEncHandler(cfg), "henc", AfterChecks)
+HandlerEnc == HandlerStage("henc", "henc", AfterChecks)
+(* Reverify variant only: final verification of whatever token is about to be returned *)
+VerifyPat == RecheckStage("vpat", "rpat", FailPat(cfg, kind, tok), FALSE, "", "vkw")
+VerifyKw  == RecheckStage("vkw", "rkw", FailKw(cfg, kind, tok), FALSE, "", "venc")
+VerifyEnc == RecheckStage("venc", "renc", FailEnc(cfg, kind, tok), FALSE, "", "ans")
 
 Answer0 == [err |-> err, out |-> tok, nf |-> IF err THEN <<>> ELSE NfModel(tok)]
 (* the answer leaves the filter: this is the P-layer's step (memo records it)                               *)
@@ -300,6 +307,7 @@ ReaskMiss == /\ WithReask /\ stage = "done" /\ asked = 1
              /\ UNCHANGED <<cfg, kind, inp, memo, asked>>
 
 Next == \/ Encode \/ StropKw \/ StropPat \/ RecheckPat \/ HandlerPat \/ RecheckKw \/ HandlerKw \/ RecheckEnc \/ HandlerEnc
+        \/ VerifyPat \/ VerifyKw \/ VerifyEnc
         \/ Return \/ ReaskHit \/ ReaskMiss
 Spec == Init /\ [][Next]_vars
 
@@ -316,7 +324,7 @@ IRefinesP == \A i \in DOMAIN memo :
 PipeAgrees == (stage = "done") =>
                  LET r == Pipe(cfg, kind, inp)
                  IN r.err = err /\ (err \/ r.out = tok) /\ r.hnd = hnd /\ r.steps = steps
-TypeOK == /\ stage \in {"enc", "kw", "pat", "rpat", "hpat", "rkw", "hkw", "renc", "henc", "ans", "done"}
+TypeOK == /\ stage \in {"enc", "kw", "pat", "rpat", "hpat", "rkw", "hkw", "renc", "henc", "vpat", "vkw", "venc", "ans", "done"}
           /\ asked \in 0..2 /\ Len(memo) = asked
 
 (* ---- case emission (spec -> code): one record per question, with the model's prediction and P's opinion of it *)
